@@ -935,6 +935,9 @@ class Engine:
       if h:
         return h[1](self, obj)
       raise Unsupported(f'attribute {attr} of symbolic {obj.sort()}')
+    h = self.libspec.get(('attr', type(obj).__name__, attr))          # contract-supplied container types
+    if h:
+      return h[1](self, obj)
     try:
       return getattr(obj, attr)
     except AttributeError:
@@ -1191,6 +1194,10 @@ class Engine:
         fb = getattr(b, f) if isinstance(b, Struct) else b
         setattr(out, f, self.binop(op, fa, fb))
       return out
+    for x_ in (a, b):                                                       # contract-supplied container types (e.g. stacks of abstract fields)
+      tn = type(x_).__name__
+      if tn not in ('SymSeq', 'SymMat', 'Struct') and ('binop', tn, t.__name__) in self.libspec:
+        return self.libspec[('binop', tn, t.__name__)][1](self, a, b)
     if type(a).__name__ == 'SymMat' or type(b).__name__ == 'SymMat':      # 2-d mode (vlib/pyvc/matrix.py)
       h = self.libspec.get(('binop', 'SymMat', t.__name__))
       if h:
